@@ -285,6 +285,33 @@ class SrcFile:
         self.oobs = self.fobs = None
 
 
+HARNESS = [("egofmt/fmt_test.go", "internal/commands/zz_verif_fmt_test.go")]
+_FMT = {}
+
+
+def fmt_many(sd, items):
+    """items: [(name, path)] -> {name: {ok, msg, text, ok2, msg2, text2}}: every file formatted, and the result formatted
+    again, by the function `ego fmt` calls for each file, all in one process (harness/egofmt)."""
+    if "bin" not in _FMT:
+        if "ov" not in _FMT:
+            _FMT["ov"] = vf.make_overlay(sd, HARNESS)
+        _FMT["bin"] = vf.go_test_compile(_FMT["ov"], "./internal/commands/", os.path.join(sd, "fmt.test"), timeout=1800)
+        _FMT["n"] = 0
+    _FMT["n"] += 1
+    fin = os.path.join(sd, "fmt_in_%d.ndjson" % _FMT["n"])
+    fout = os.path.join(sd, "fmt_out_%d.ndjson" % _FMT["n"])
+    vf.write_ndjson(fin, [{"name": n, "path": p} for n, p in items])
+    e = dict(os.environ)
+    e.update(VERIF_IN=fin, VERIF_OUT=fout)
+    p = vf.run([_FMT["bin"], "-test.run", "^TestVerifFmt$", "-test.timeout", "1500s"], cwd=sd, env=e, timeout=1700)
+    if not os.path.exists(fout):
+        raise vf.NoVerdict("the formatting harness produced no result (rc=%d)\n%s\n%s" % (p.returncode, p.stdout[-2000:], p.stderr[-2000:]))
+    res = {r["name"]: r for r in vf.read_ndjson(fout)}
+    if set(res) != {n for n, _ in items}:
+        raise vf.NoVerdict("the formatting harness skipped files")
+    return res
+
+
 def process_files(files, sd, ego, env, tag):
     """original -> run; original -> ego fmt -> run, ego fmt again.  Fills the SrcFile fields."""
     d = os.path.join(sd, tag)
@@ -293,41 +320,46 @@ def process_files(files, sd, ego, env, tag):
         f.path = os.path.join(d, f.name + ".ego")
         f.fpath = os.path.join(d, f.name + "_f.ego")
         open(f.path, "w").write(f.text)
+    fm = fmt_many(sd, [(f.name, f.path) for f in files])
 
     def runcmd(f, p):
         return [ego, "run", p] if f.shape == "prog" else [ego, "test", p]
-    jobs = []
+    jobs, idx = [], []
     for f in files:
-        jobs.append(([ego, "fmt", f.path], None, d, env))
+        r = fm[f.name]
+        f.fmt_ok = bool(r["ok"]) and r["text"].strip() != ""
+        f.fmt_raw_msg = r["msg"]
+        f.fmt_msg = norm_msg(r["msg"])
+        f.ftext = r["text"] if f.fmt_ok else ""
+        f.ftext2 = r["text2"] if f.fmt_ok else ""
+        f.idem = f.fmt_ok and bool(r["ok2"]) and r["text2"] == r["text"]
         jobs.append((runcmd(f, f.path), None, d, env))
-    res = vf.run_many(jobs, nproc=NPROC, timeout=TMO)
-    jobs2, idx = [], []
-    for n, f in enumerate(files):
-        rc, so, se = res[2 * n]
-        if rc is None:
-            raise vf.NoVerdict("ego fmt did not finish within %d s" % TMO)
-        f.fmt_ok = rc == 0 and so.strip() != ""
-        f.fmt_msg = norm_msg(se + so if rc != 0 else "")
-        f.fmt_raw_msg = se + so if rc != 0 else ""
-        f.ftext = so if rc == 0 else ""
-        uids = [u.uid for u in f.units]
-        f.oobs = (observe_prog if f.shape == "prog" else observe_frag)(*res[2 * n + 1], uids)
-        f.orig_raw = res[2 * n + 1]
+        idx.append((f, "o"))
         if f.fmt_ok:
             open(f.fpath, "w").write(f.ftext)
-            jobs2.append(([ego, "fmt", f.fpath], None, d, env))
-            jobs2.append((runcmd(f, f.fpath), None, d, env))
-            idx.append(f)
-    res2 = vf.run_many(jobs2, nproc=NPROC, timeout=TMO)
-    for n, f in enumerate(idx):
-        rc, so, se = res2[2 * n]
+            jobs.append((runcmd(f, f.fpath), None, d, env))
+            idx.append((f, "f"))
+    res = vf.run_many(jobs, nproc=NPROC, timeout=TMO)
+    for (f, which), r in zip(idx, res):
+        obs = (observe_prog if f.shape == "prog" else observe_frag)(*r, [u.uid for u in f.units])
+        if which == "o":
+            f.oobs, f.orig_raw = obs, r
+        else:
+            f.fobs, f.fmt_raw = obs, r
+    return 1 + len(jobs)
+
+
+def fmt_selftest(chk, sd, ego, env, samples):
+    """the harness must give what the real `ego fmt file` prints (samples: [(path, harness text or None when it failed)])"""
+    res = vf.run_many([([ego, "fmt", p], None, sd, env) for p, _ in samples], nproc=NPROC, timeout=TMO)
+    n = 0
+    for (p, text), (rc, so, se) in zip(samples, res):
         if rc is None:
             raise vf.NoVerdict("ego fmt did not finish within %d s" % TMO)
-        f.idem = rc == 0 and so == f.ftext
-        f.ftext2 = so
-        f.fobs = (observe_prog if f.shape == "prog" else observe_frag)(*res2[2 * n + 1], [u.uid for u in f.units])
-        f.fmt_raw = res2[2 * n + 1]
-    return 2 * len(files) + len(jobs2)
+        if (text is None) != (rc != 0) or (text is not None and so.rstrip("\n") != text.rstrip("\n")):
+            raise vf.NoVerdict("the formatting harness and `ego fmt %s` disagree (rc=%s)\n%s" % (p, rc, (so + se)[-600:]))
+        n += 1
+    chk.cov["ego_fmt_binary_agrees_with_harness_on"] = n
 
 
 def unit_record(f, u):
@@ -463,20 +495,21 @@ def corpus_stage(chk, sd, ego, env, rng, thorough):
             dn.sort()
             paths += [os.path.relpath(os.path.join(dp, f), ta) for f in sorted(fn) if f.endswith(".ego")]
     # every file is formatted (B is the formatted repository); in the quick tier only a sample is run
-    res = vf.run_many([([ego, "fmt", rel], None, ta, env) for rel in paths], nproc=NPROC, timeout=TMO)
+    fm = fmt_many(sd, [(rel, os.path.join(ta, rel)) for rel in paths])
     items = []
-    for rel, (rc, so, se) in zip(paths, res):
-        if rc is None:
-            raise vf.NoVerdict("ego fmt did not finish within %d s on %s" % (TMO, rel))
-        it = {"rel": rel, "src": open(os.path.join(ta, rel), errors="replace").read(), "fmt_ok": rc == 0,
-              "fmt_msg": norm_msg(se + so if rc != 0 else ""), "ftext": so if rc == 0 else "",
+    for rel in paths:
+        r = fm[rel]
+        it = {"rel": rel, "src": open(os.path.join(ta, rel), errors="replace").read(), "fmt_ok": bool(r["ok"]),
+              "fmt_msg": norm_msg(r["msg"]), "ftext": r["text"] if r["ok"] else "",
+              "idem": bool(r["ok"]) and bool(r["ok2"]) and r["text2"] == r["text"],
               "mode": "test" if rel.startswith("tests/") else "run"}
         if it["fmt_ok"]:
             open(os.path.join(tb, rel), "w").write(it["ftext"])
+        else:
+            it["idem"] = True
         items.append(it)
-    res = vf.run_many([([ego, "fmt", it["rel"]], None, tb, env) for it in items if it["fmt_ok"]], nproc=NPROC, timeout=TMO)
-    for it, (rc, so, se) in zip([it for it in items if it["fmt_ok"]], res):
-        it["idem"] = rc == 0 and so == it["ftext"]
+    chk.cov["corpus_formatted"] = len(items)
+    _FMT["corpus_sample"] = [(os.path.join(ta, it["rel"]), it["ftext"] if it["fmt_ok"] else None) for it in rng.sample(items, min(3, len(items)))]
     torun = items if thorough else rng.sample(items, min(24, len(items)))
     if not thorough:
         # a file that is not formatted cleanly is always run as well: whether the compiler accepts it decides whether it counts
@@ -531,7 +564,7 @@ def corpus_stage(chk, sd, ego, env, rng, thorough):
                      "_src": it["src"], "_fmt": it["ftext"]})
     chk.cov["corpus_skipped_unstable_or_timeout"] = skipped
     chk.cov["corpus_run"] = len(torun) - len(skipped)
-    return recs, 2 * len(paths) + len(jobs) + 2 * len(again)
+    return recs, 1 + len(jobs) + 2 * len(again)
 
 
 # ---------------------------------------------------------------- the check
@@ -622,8 +655,8 @@ def run():
         if dev and os.environ.get("C05_DEV_EGO"):
             ego = os.environ["C05_DEV_EGO"]
         else:
-            ov = vf.make_overlay(sd)
-            ego = vf.build_ego(sd, ov)
+            _FMT["ov"] = vf.make_overlay(sd, HARNESS)
+            ego = vf.build_ego(sd, _FMT["ov"])
         env = vf.ego_env(sd)
         if dev:
             cases = rng.sample(cases, min(dev, len(cases)))
@@ -643,6 +676,8 @@ def run():
                     files.append(SrcFile("r%d_%s_g%d_%d" % (rounds, shape, g, k // pack), us[k:k + pack], shape, prelude))
             vf.log("round %d: %d files, %d units" % (rounds, len(files), sum(len(f.units) for f in files)))
             nproc += process_files(files, sd, ego, env, "round%d" % rounds)
+            if rounds == 1:
+                _FMT["gen_sample"] = [(f.path, f.ftext if f.fmt_ok else None) for f in rng.sample(files, min(3, len(files)))]
             nxt = {}
             for f in files:
                 sus, reuse = suspects(f)
@@ -683,10 +718,13 @@ def run():
                 raise vf.NoVerdict("packed files do not settle")
         chk.cov["rounds"] = rounds
         chk.cov["units_observed_alone"] = alone
+        fmt_selftest(chk, sd, ego, env, _FMT.get("gen_sample", []) + _FMT.get("corpus_sample", [])) if dev else None
         # 5. the repository's own files
         crecs, n2 = ([], 0) if dev else corpus_stage(chk, sd, ego, env, rng, thorough)
         nproc += n2
         chk.cov["corpus_files"] = len(crecs)
+        if not dev:
+            fmt_selftest(chk, sd, ego, env, _FMT.get("gen_sample", []) + _FMT.get("corpus_sample", []))
         # 6. the contract
         allrecs = recs + crecs
         n, judged, bad, outside = judge(chk, sd, allrecs, "contract")
